@@ -8,6 +8,23 @@ COMMON_ASSUMPTIONS = [
 TB = "trusted: Lean kernel + {propext, Classical.choice, Quot.sound}; "
 
 PROPS = {
+    "C08": {
+        "harness": "c08", "level": "proof", "category": "proof", "design_ref": "DESIGN.md 5/C08, 4.7", "translators": [],
+        "technique": "Lean 4 proof (two-pointer merges decode to pointwise operations; sparse metric = dense metric on list-encoded vectors, over any ordered ring/field) + exact correspondence of the merge kernels + real sparse vs real dense kernels on all support patterns",
+        "text": "Lean theorems over a literal model of sparse.py's merge kernels (sparse_sum/diff/mul with dropped zeros and tail loops, "
+                "sparse_dot_product with its early returns, arr_union/intersect, fast_intersection_size): merge_decode / merge_wf / merge_enc "
+                "(every support relation at once), dot_product_agrees, intersection_size_agrees, and sparse_X (enc x) (enc y) [n] = dense_X x y "
+                "for the Minkowski family, hamming, the binary family with the n_features closed-form corrections, cosine parts, hellinger sums, "
+                "braycurtis, canberra and correlation's implicit-zero accounting (where defect D17 lived), all before the final sqrt; enc provably "
+                "satisfies the well-formedness precondition. The model is compared exactly with the real merge kernels on all support patterns "
+                "for dim <= 5 with small-integer values (cancellations to 0) and the real sparse metrics are compared with the real dense "
+                "metrics for every name in both tables (n_features / p / ground metric supplied; union of supports for JS / symmetric KL)",
+        "note": TB + "float rounding is outside the theorems (ordered ring/field); sqrt/log final steps, kantorovich, wasserstein_1d, non-integer minkowski p "
+                     "and the JS/KL bodies are compared on real kernels only; rows < 65536 entries (uint16 cursors); CSR rows sorted, no stored zeros",
+        "explanation": "theorems for all support patterns and values; exact kernel correspondence; real sparse vs dense on exhaustive small patterns",
+        "assumptions": COMMON_ASSUMPTIONS + ["sparse rows have strictly increasing indices and no stored zeros (enc_wf; scipy canonical CSR)",
+                                             "empty operands of sparse_dot_product are not generated (out-of-bounds read in the kernel: memory safety is outside the model)"],
+    },
     "C11": {
         "harness": "c11", "level": "proof", "category": "proof", "design_ref": "DESIGN.md 5/C11, 4.1",
         "technique": "Lean 4 proof (invariant by induction over offer sequences) + bit-exact differential correspondence",
